@@ -513,6 +513,24 @@ def explain(history):
         return None
 
 
+def inventory_diff():
+    """(items of the current AST scan that are not in the reviewed list of Props/C19.lean, reviewed items that are gone)"""
+    import importlib.util
+    import re
+
+    verif = os.path.dirname(os.path.dirname(HERE))
+    spec = importlib.util.spec_from_file_location("scan_state", os.path.join(verif, "tools", "scan_state.py"))
+    mod = importlib.util.module_from_spec(spec)
+    spec.loader.exec_module(mod)
+    rows = [tuple(x) for x in mod.scan()]
+    src = open(os.path.join(verif, "lean", "DmrVerif", "Props", "C19.lean"), encoding="utf-8").read()
+    a = src.index("def reviewed :")
+    block = src[a : src.index("]\n", a)]
+    row = re.compile(r'^\s*\("((?:[^"\\]|\\.)*)", "((?:[^"\\]|\\.)*)", "((?:[^"\\]|\\.)*)", "((?:[^"\\]|\\.)*)"\),?\s*$', re.M)
+    old = [tuple(x.replace('\\"', '"').replace("\\\\", "\\") for x in m.groups()) for m in row.finditer(block)]
+    return [x for x in rows if x not in old], [x for x in old if x not in rows]
+
+
 def source_fingerprint():
     """(path, size, mtime) of every source file of the package the workers import"""
     import importlib.util
@@ -761,6 +779,17 @@ def run(ctx):
                 fail("ambient-dependent-result", {"history": [s], "index": 0, "settings": "time/datetime/random/secrets/uuid/os.urandom replaced by two deterministic settings before import"},
                      f"{s['ep']} depends on wall-clock time or randomness", expected=base, actual=[a[0], b[0]])
     ctx.count("ambient-calls", len(amb) * 2)
+
+    # ---------------- the inventory of the source as it is now against the reviewed list (also a Lean theorem: inventory_baseline)
+    new_items, gone_items = inventory_diff()
+    ctx.count("inventory:new-items", len(new_items))
+    ctx.count("inventory:gone-items", len(gone_items))
+    if new_items or gone_items:
+        ctx.notes.append("hidden-state inventory differs from the reviewed list in Props/C19.lean; after reviewing run tools/c19_rebaseline.py --write")
+        if not any(d.get("component") == "inventory-baseline" for d in ctx.disagreements):
+            ctx.disagreements.append({"component": "inventory-baseline", "line": "tools/scan_state.py vs `reviewed` in Props/C19.lean",
+                                      "impl": {"new": [" | ".join(x) for x in new_items[:12]], "gone": [" | ".join(x) for x in gone_items[:12]]},
+                                      "model": "the reviewed list"})
 
     # the working tree must not change under a run that compares executions made at different moments
     if source_fingerprint() != fp0:
